@@ -88,6 +88,20 @@ deletion in the ordered map (C08: expired proposals made again), "performed" ans
 equal height on another fork (C10), a cancelled context after the pipeline answered (C13), a mutex left locked by
 a recovered panic (C18: type-getter site), an in-place trim of a handed-out slice and a sub-millisecond jitter
 (C20), idle workers forgotten (C14).
+Wave 5 (20 changes for the ten properties wave 4 had left out, ids `Cxx-w5-k`, fourth session, after the
+translator had grown to 200 units) again asked for mechanisms of another kind. 11 of 20 were flagged on the first
+run; one more (C04-w5-1) was predicted as a miss from the seeding agent's report and the harness strengthened before
+its first run. What the misses had in common: **state or storage that outlives one call, in places where the
+harness had used a fresh instance or looked only once** - a set kept in a plug-in field between two Reports calls
+(C04: an earlier round on the same instance), events cached with the confirmations of the first poll (C19: the
+tracker is polled after every delivery), a verdict memoised per (sequence number, oracle) (C15: one long-lived
+validating instance, its verdict must be the decoder's), a filtered list reused while the staged block is
+unchanged (C17: observe, accept, observe again), and three cases of *returned bytes / slices backed by reused
+storage* (C16 observation bytes from a pooled buffer, C11 the queue's scratch slice; C03-w5-1, the same idea in
+the v3 encoder, was caught at once because four instances share one process there); **a cancellation that is not
+an error** (C12: a batch outlasting the observer's time limit - the completed batches' results must still be
+routed); and two **boundary inputs** (C01: thirty quorum results of 70 KB, where a byte budget displaced votes;
+C03: a unit at quorum in two versions that are not adjacent in the sorted traversal).
 A rewritten function usually leaves the translator's subset: the obligation of that unit is then checked
 against the pinned term only and the property is explored as *drifted* (twice the cases, three seeds) - of
 the 45 first-run catches, the translator obligations broke (proof-level catch, then a failing input found by
